@@ -622,6 +622,17 @@ struct ArraysWorld : World {
 							ssize_t q; { Sut s; q = mpt_slice_write(reinterpret_cast<slice *>(&cs), bsz, 0, 0); }
 							log.ev("SWRITE(own) %d room for blocks of %zu -> %zd", h, bsz, q);
 							if (q < 0) continue;
+						} else if (round == 3 && !want.empty() && (op.c & 64)) {
+							// the written block is part of the slice's own view (the pointer lies inside its buffer): the view grows by a copy of it,
+							// wherever the writer had to move the view to make room
+							size_t so = (size_t) (op.c / 17) % want.size(), sl2 = 1 + (size_t) (op.c / 19) % (want.size() - so);
+							std::vector<uint32_t> own(want.begin() + so, want.begin() + so + sl2);
+							const uint8_t *ptr = (const uint8_t *) (cs.a.buf + 1) + cs.off + so;
+							ssize_t w; { Sut s; w = mpt_slice_write(reinterpret_cast<slice *>(&cs), 1, ptr, sl2); }
+							log.ev("SWRITE(own) %d one block of %zu bytes from the view itself at %zu -> %zd", h, sl2, so, w); st.hit("probe:slice_write_own_content");
+							if (w < 0) continue;
+							if (w > 1) fail("wrong-content", "slice write reports %zd of 1 block", w);
+							if (w == 1) want.insert(want.end(), own.begin(), own.end());
 						} else {
 							std::vector<uint32_t> vals = fresh(nb * bsz); Block src(nb * bsz, 0); for (size_t i = 0; i < vals.size(); ++i) src.p[i] = (uint8_t) vals[i];
 							ssize_t w; { Sut s(round == 1 ? failn : 0); w = mpt_slice_write(reinterpret_cast<slice *>(&cs), nb, src.p, bsz); if (round == 1) afired = g.fired; }
@@ -999,7 +1010,16 @@ struct ArraysWorld : World {
 				for (int k = 0; k < 10; ++k) {
 					uint64_t z = ((uint64_t) op.c + 3) * 0x9e3779b97f4a7c15ull + (uint64_t) k * 0xbf58476d1ce4e5b9ull; z ^= z >> 30;
 					unsigned act = (unsigned) (z % 8); size_t n = 1 + (size_t) ((z >> 8) % 40);
-					if (act <= 2) {
+					if (act <= 2 && !live.empty() && ((z >> 40) & 3) == 0) {
+						// the pushed bytes are part of what the array holds (the pointer lies inside its buffer)
+						size_t so = (size_t) ((z >> 24) % live.size()), sl = 1 + (size_t) ((z >> 32) % (live.size() - so));
+						std::vector<uint8_t> own(live.begin() + so, live.begin() + so + sl);
+						const array::content *c0 = e->_d.data(); const uint8_t *ptr = (const uint8_t *) c0->data() + (c0->length() - live.size()) + so;
+						ssize_t r; { Sut s; r = e->push(sl, ptr); }
+						log.ev("X_ENCARR push %zu of its own bytes -> %zd", sl, r); st.hit("probe:encode_array_push_own_content");
+						if (r < 0) fail("refused-valid", "encode_array push of %zu of its own bytes refused (%zd)", sl, r);
+						live.insert(live.end(), own.begin(), own.begin() + r);
+					} else if (act <= 2) {
 						std::vector<uint32_t> w32 = fresh(n); Block wb(n, 0); for (size_t i = 0; i < n; ++i) wb.p[i] = (uint8_t) w32[i];
 						ssize_t r; { Sut s(k == 5 ? failn : 0); r = e->push(n, wb.p); if (k == 5) fired = g.fired; }
 						log.ev("X_ENCARR push %zu -> %zd", n, r);
@@ -1073,14 +1093,34 @@ struct ArraysWorld : World {
 				else if (!fired) fail("refused-valid", "C++ array append of %zu bytes refused without allocation fault", len);
 				break;
 			}
-			case OP_X_INSERT: {
+			case OP_X_INSERT: if (!M3[h].empty() && (op.c % 11) == 3) {
+				// the inserted bytes are part of the array's own content
+				size_t u = M3[h].size(), so = (size_t) (op.c / 11) % u, sl = 1 + (size_t) (op.c / 7) % (u - so), at = (size_t) (op.c / 13) % (u + 1);
+				std::vector<uint8_t> own(M3[h].begin() + so, M3[h].begin() + so + sl);
+				const uint8_t *ptr = (const uint8_t *) A[h]->data()->data() + so;
+				void *r; { Sut s(failn); r = A[h]->insert(at, sl, ptr); fired = g.fired; }
+				log.ev("X_INSERT %d at %zu its own bytes [%zu,+%zu) of %zu%s -> %s", h, at, so, sl, u, fired ? " allocfail" : "", r ? "ok" : "null");
+				st.hit("probe:cxx_insert_own_content");
+				if (r) { M3[h].insert(M3[h].begin() + at, own.begin(), own.end()); outcome = 1; } else if (!fired) fail("refused-valid", "C++ array insert of its own %zu bytes at %zu refused without allocation fault", sl, at);
+				break;
+			} else {
 				void *r; { Sut s(failn); r = A[h]->insert(pos, len, nul ? 0 : src.p); fired = g.fired; }
 				log.ev("X_INSERT %d off=%zu len=%zu%s%s -> %s", h, pos, len, nul ? " zeros" : "", fired ? " allocfail" : "", r ? "ok" : "null");
 				if (r) { if (nul) vals.assign(len, 0); if (pos > M3[h].size()) M3[h].resize(pos, 0); M3[h].insert(M3[h].begin() + pos, vals.begin(), vals.end()); outcome = 1; }
 				else if (!fired) fail("refused-valid", "C++ array insert(off %zu, len %zu) refused without allocation fault", pos, len);
 				break;
 			}
-			case OP_X_SET: {
+			case OP_X_SET: if (!M3[h].empty() && (op.c % 11) == 3) {
+				// the array is set to a part of its own content
+				size_t u = M3[h].size(), so = (size_t) (op.c / 11) % u, sl = 1 + (size_t) (op.c / 7) % (u - so);
+				std::vector<uint8_t> own(M3[h].begin() + so, M3[h].begin() + so + sl);
+				const uint8_t *ptr = (const uint8_t *) A[h]->data()->data() + so;
+				void *r; { Sut s(failn); r = A[h]->set(sl, ptr); fired = g.fired; }
+				log.ev("X_SET %d to its own bytes [%zu,+%zu) of %zu%s -> %s", h, so, sl, u, fired ? " allocfail" : "", r ? "ok" : "null");
+				st.hit("probe:cxx_set_own_content");
+				if (r) { M3[h] = own; outcome = 1; } else if (!fired) fail("refused-valid", "C++ array set to its own %zu bytes refused without allocation fault", sl);
+				break;
+			} else {
 				void *r; { Sut s(failn); r = A[h]->set(len, nul ? 0 : src.p); fired = g.fired; }
 				log.ev("X_SET %d len=%zu%s%s -> %s", h, len, nul ? " zeros" : "", fired ? " allocfail" : "", r ? "ok" : "null");
 				if (r) { if (nul) vals.assign(len, 0); M3[h] = vals; outcome = 1; }
